@@ -291,6 +291,8 @@ def _expr_form(idx: PyIndex, fi: FuncInfo, call: ast.Call, h: FuncInfo) -> Optio
                 return None
     # arguments are substituted textually: only side-effect-free, cheap argument expressions
     def cheap(v):
+        if isinstance(v, ast.Subscript) and isinstance(v.slice, ast.Constant):
+            return cheap(v.value)            # tok['name'], row[0]
         return isinstance(v, (ast.Name, ast.Constant)) or (isinstance(v, ast.Attribute) and _is_path(v))
     if not all(cheap(v) for v in bound.values()):
         # any other argument expression is fine for a parameter the helper reads exactly once, outside nested scopes (it is then evaluated once, as before)
@@ -765,6 +767,11 @@ def inline_function(idx: PyIndex, fi: FuncInfo, depth: int = 2, keep=None, types
                         seen_t.add(tgt0.id)
                         pre.append(ast.Assign(targets=[ast.Name(id=tgt0.id, ctx=ast.Store())], value=copy.deepcopy(val0), lineno=1, col_offset=0))
             m = desugar(ast.Module(body=pre + [fn], type_ignores=[]))
+            # the local-name canonical forms as well (a helper's parameter bound to `tok['x']`, a flag now next to its test)
+            from .normalise import split_live_ranges, alias_paths, alias_paths_nested, inline_test_locals
+            ast.fix_missing_locations(m)
+            comp = getattr(idx, 'computed_attrs', frozenset())
+            m = inline_test_locals(alias_paths_nested(alias_paths(split_live_ranges(m), comp), comp))
             if m.body and isinstance(m.body[-1], ast.FunctionDef):
                 fn = Canon().visit(m.body[-1])
                 if exact and any(isinstance(x, (ast.If, ast.IfExp)) for x in ast.walk(fn)):
